@@ -4,6 +4,7 @@ write wins, frame, zero-filled growth), removal of entries by zero, agreement of
 classes.
 -/
 import PyttbModel.Lemmas.MutArraySparseHist
+import PyttbModel.Lemmas.MutArrayDenseHist
 set_option linter.unusedSimpArgs false
 set_option linter.unusedVariables false
 set_option linter.unusedSectionVars false
@@ -57,6 +58,21 @@ theorem Sparse.get_ne_zero_of_mem {S : Sparse α} (hS : S.WF) {i : List Nat} (hi
   rw [this]
   have := hS.nz S.vals[k] (List.getElem_mem hk')
   simpa using this
+
+/-- Along a history of accepted operations the stored tensor stays well formed after
+every prefix. -/
+theorem Sparse.run_wf_prefix {S : Sparse α} {m : MArr α} (h : SRel S m) (ops : List (IdxOp α))
+    (hp : AcceptedHistS m ops) (k : Nat) : (S.run (ops.take k)).1.WF := by
+  induction ops generalizing S m k with
+  | nil => simpa [Sparse.run] using h.wf
+  | cons op ops ih =>
+    cases k with
+    | zero => simpa [Sparse.run] using h.wf
+    | succ k =>
+      obtain ⟨hp1, hp2⟩ := hp
+      have hs := Sparse.step_refines h op (by rw [h.shape]; exact hp1)
+      simp only [List.take_succ_cons, Sparse.run]
+      exact ih hs.1 hp2 k
 
 end cor
 end Pyttb
